@@ -245,6 +245,8 @@ def gen_case(seed, tier='quick'):
         return {'property': ID, 'seed': seed, 'knobs': knobs, 'world': world,
                 'ops': ops}
     world = worlds.gen_world(rng, userfuncs=faulty and rng.random() < 0.5)
+    if rng.random() < 0.25:
+        worlds.add_env_cells(rng, world)
     n_ev = rng.choice([1, 1, 2, 3])
     ops = gen_ops(rng, world, n_ev, allow_faults=faulty)
     knobs = {'n_evaluators': n_ev,
